@@ -71,6 +71,34 @@ var c21SelfTests = []SelfTest{
 	{Name: "unknown user judged by the dummy hash", ExpectRule: "C21.R2", Edits: []Edit{
 		{File: "internal/socks5/auth.go", Old: "\t\tbcrypt.CompareHashAndPassword([]byte(dummyHash), []byte(password))\n\t\treturn false\n", New: "\t\treturn bcrypt.CompareHashAndPassword([]byte(dummyHash), []byte(password)) == nil\n"},
 	}},
+	{Name: "any bcrypt error other than a mismatch counts as success (seed C21-a class)", ExpectRule: "C21.R2", Edits: []Edit{
+		{File: "internal/socks5/auth.go", Old: "\treturn bcrypt.CompareHashAndPassword([]byte(storedHash), []byte(password)) == nil\n", New: "\terr := bcrypt.CompareHashAndPassword([]byte(storedHash), []byte(password))\n\tif errors.Is(err, bcrypt.ErrMismatchedHashAndPassword) {\n\t\treturn false\n\t}\n\treturn true\n"},
+	}},
+	{Name: "user name checked against itself", ExpectRule: "C21.R2", Edits: []Edit{
+		{File: "internal/socks5/auth.go", Old: "if !a.Credentials.Valid(string(username), string(password)) {", New: "if !a.Credentials.Valid(string(username), string(username)) {"},
+	}},
+	{Name: "password trimmed before the comparison", ExpectRule: "C21.R2", Edits: []Edit{
+		{File: "internal/socks5/auth.go", Old: "return subtle.ConstantTimeCompare([]byte(storedPass), []byte(password)) == 1", New: "return subtle.ConstantTimeCompare([]byte(storedPass), bytes.TrimSpace([]byte(password))) == 1"},
+		{File: "internal/socks5/auth.go", Old: "import (\n\t\"crypto/subtle\"\n", New: "import (\n\t\"bytes\"\n\t\"crypto/subtle\"\n"},
+	}},
+	{Name: "recently authenticated peers skip the handshake", ExpectRule: "C21.R2", Edits: []Edit{
+		{File: "internal/socks5/handler.go", Old: "\theader := make([]byte, 2)\n\tif _, err := io.ReadFull(conn, header); err != nil {\n\t\treturn \"\", err\n\t}\n\n\tif header[0] != SOCKS5Version {\n\t\treturn \"\", fmt.Errorf", New: "\tif ra := conn.RemoteAddr(); ra != nil && ra.String() == h.lastPeer {\n\t\treturn \"\", nil\n\t}\n\theader := make([]byte, 2)\n\tif _, err := io.ReadFull(conn, header); err != nil {\n\t\treturn \"\", err\n\t}\n\n\tif header[0] != SOCKS5Version {\n\t\treturn \"\", fmt.Errorf"},
+		{File: "internal/socks5/handler.go", Old: "\tauthenticators []Authenticator\n\tdialer         Dialer\n", New: "\tauthenticators []Authenticator\n\tdialer         Dialer\n\tlastPeer       string\n"},
+	}},
+	{Name: "loopback clients exempted from authentication", ExpectRule: "C21.R1", Edits: []Edit{
+		{File: "internal/socks5/handler.go", Old: "\t_, err := h.authenticate(conn)\n\tif err != nil {\n\t\treturn fmt.Errorf(\"authentication: %w\", err)\n\t}\n", New: "\ttcp, _ := conn.RemoteAddr().(*net.TCPAddr)\n\tif tcp == nil || !tcp.IP.IsLoopback() {\n\t\tif _, err := h.authenticate(conn); err != nil {\n\t\t\treturn fmt.Errorf(\"authentication: %w\", err)\n\t\t}\n\t}\n"},
+	}},
+	// ---- R4
+	{Name: "user without password stored with the empty secret (seed C21-b class)", ExpectRule: "C21.R4", Edits: []Edit{
+		{File: "internal/agent/agent.go", Old: "\t\t} else if u.Password != \"\" {\n\t\t\t// Fall back to plaintext password (deprecated)\n\t\t\tusers[u.Username] = u.Password\n", New: "\t\t} else {\n\t\t\t// Fall back to plaintext password (deprecated)\n\t\t\tusers[u.Username] = u.Password\n"},
+	}},
+	{Name: "user loops merged into a helper that loses the non-empty test", ExpectRule: "C21.R4", Edits: []Edit{
+		{File: "internal/agent/agent.go", Old: "\t// Separate plaintext and hashed credentials\n\tusers := make(map[string]string)\n\thashedUsers := make(map[string]string)\n\n\tfor _, u := range a.cfg.SOCKS5.Auth.Users {\n\t\tif u.PasswordHash != \"\" {\n\t\t\t// Prefer password hash if available\n\t\t\thashedUsers[u.Username] = u.PasswordHash\n\t\t} else if u.Password != \"\" {\n\t\t\t// Fall back to plaintext password (deprecated)\n\t\t\tusers[u.Username] = u.Password\n\t\t}\n\t}\n", New: "\tusers, hashedUsers := a.splitSOCKS5Users()\n"},
+		{File: "internal/agent/agent.go", Old: "// buildSOCKS5Auth builds SOCKS5 authenticators from config.\n", New: "func (a *Agent) splitSOCKS5Users() (users, hashedUsers map[string]string) {\n\tusers = make(map[string]string)\n\thashedUsers = make(map[string]string)\n\tfor _, u := range a.cfg.SOCKS5.Auth.Users {\n\t\tif u.PasswordHash != \"\" {\n\t\t\thashedUsers[u.Username] = u.PasswordHash\n\t\t\tcontinue\n\t\t}\n\t\tusers[u.Username] = u.Password\n\t}\n\treturn users, hashedUsers\n}\n\n// buildSOCKS5Auth builds SOCKS5 authenticators from config.\n"},
+	}},
+	{Name: "websocket credential store built without the non-empty test", ExpectRule: "C21.R4", Edits: []Edit{
+		{File: "internal/agent/agent.go", Old: "\t\t} else if u.Password != \"\" {\n\t\t\tusers[u.Username] = u.Password\n", New: "\t\t} else {\n\t\t\tusers[u.Username] = u.Password\n"},
+	}},
 	// ---- R3
 	{Name: "agent appends no-auth for compatibility", ExpectRule: "C21.R3", Edits: []Edit{
 		{File: "internal/agent/agent.go", Old: "\treturn socks5.CreateAuthenticators(socks5.AuthConfig{\n", New: "\treturn append(socks5.CreateAuthenticators(socks5.AuthConfig{\n"},
@@ -105,6 +133,17 @@ var c21SelfTests = []SelfTest{
 		{File: "internal/socks5/auth.go", Old: "\tif !a.Credentials.Valid(string(username), string(password)) {\n\t\t// Send failure response\n\t\twriter.Write([]byte{0x01, AuthStatusFailure})\n\t\treturn \"\", errors.New(\"authentication failed\")\n\t}\n\n\t// Send success response\n\t_, err := writer.Write([]byte{0x01, AuthStatusSuccess})\n\tif err != nil {\n\t\treturn \"\", err\n\t}\n\n\treturn string(username), nil\n", New: "\tif a.Credentials != nil && a.Credentials.Valid(string(username), string(password)) {\n\t\t_, err := writer.Write([]byte{0x01, AuthStatusSuccess})\n\t\treturn string(username), err\n\t}\n\twriter.Write([]byte{0x01, AuthStatusFailure})\n\treturn \"\", errors.New(\"authentication failed\")\n"},
 		{File: "internal/socks5/auth.go", Old: "return subtle.ConstantTimeCompare([]byte(storedPass), []byte(password)) == 1", New: "return subtle.ConstantTimeCompare([]byte(storedPass), []byte(password)) != 0"},
 	}},
+	{Name: "rewrite: empty secrets rejected in Valid instead of at insertion; users split in a helper", Edits: []Edit{
+		{File: "internal/socks5/auth.go", Old: "\treturn subtle.ConstantTimeCompare([]byte(storedPass), []byte(password)) == 1\n", New: "\tif storedPass == \"\" {\n\t\treturn false\n\t}\n\treturn subtle.ConstantTimeCompare([]byte(storedPass), []byte(password)) == 1\n"},
+		{File: "internal/agent/agent.go", Old: "\t\t} else if u.Password != \"\" {\n\t\t\t// Fall back to plaintext password (deprecated)\n\t\t\tusers[u.Username] = u.Password\n", New: "\t\t} else {\n\t\t\t// Fall back to plaintext password (deprecated)\n\t\t\tusers[u.Username] = u.Password\n"},
+	}},
+	{Name: "rewrite: empty password rejected by the authenticator, insertion unguarded", Edits: []Edit{
+		{File: "internal/socks5/auth.go", Old: "\tpassword := make([]byte, pLen)\n", New: "\tif pLen < 1 {\n\t\treturn \"\", errors.New(\"password is empty\")\n\t}\n\tpassword := make([]byte, pLen)\n"},
+		{File: "internal/agent/agent.go", Old: "\t\t} else if u.Password != \"\" {\n\t\t\tusers[u.Username] = u.Password\n", New: "\t\t} else {\n\t\t\tusers[u.Username] = u.Password\n"},
+	}},
+	{Name: "rewrite: insertion guarded by len()", Edits: []Edit{
+		{File: "internal/agent/agent.go", Old: "\t\t} else if u.Password != \"\" {\n\t\t\t// Fall back to plaintext password (deprecated)\n\t\t\tusers[u.Username] = u.Password\n", New: "\t\t} else if len(u.Password) > 0 {\n\t\t\t// Fall back to plaintext password (deprecated)\n\t\t\tusers[u.Username] = u.Password\n"},
+	}},
 	{Name: "rewrite: agent builds the list itself, server relies on NewHandler's default", Edits: []Edit{
 		{File: "internal/agent/agent.go", Old: "\treturn socks5.CreateAuthenticators(socks5.AuthConfig{\n\t\tEnabled:     true,\n\t\tRequired:    true,\n\t\tUsers:       users,\n\t\tHashedUsers: hashedUsers,\n\t})\n", New: "\tvar creds socks5.CredentialStore = socks5.StaticCredentials(users)\n\tif len(hashedUsers) > 0 {\n\t\tcreds = socks5.HashedCredentials(hashedUsers)\n\t}\n\tauths := make([]socks5.Authenticator, 0, 1)\n\tauths = append(auths, socks5.NewUserPassAuthenticator(creds))\n\treturn auths\n"},
 		{File: "internal/socks5/server.go", Old: "\tif len(cfg.Authenticators) == 0 {\n\t\tcfg.Authenticators = []Authenticator{&NoAuthAuthenticator{}}\n\t}\n", New: ""},
@@ -132,6 +171,12 @@ type c21cx struct {
 	typeWhy     map[string]string // why a type is open
 
 	enabledConsulted int
+	stores           []c21Store
+}
+
+type c21Store struct {
+	named *types.Named
+	valid *ssa.Function
 }
 
 func c21IsErrCtor(v ssa.Value) bool {
@@ -332,6 +377,7 @@ func (cx *c21cx) protectedSite(top *ssa.Function, site ssa.Instruction, visiting
 func runC21(p *kit.Program, r *kit.Report) {
 	r.Rule("C21.R1", "every static call chain into a function that invokes Dialer.Dial/DialContext, UDPAssociationHandler.CreateUDPAssociation or ICMPHandler.CreateICMPSession crosses the err==nil edge of an authenticating call")
 	r.Rule("C21.R2", "functions invoking Authenticator.Authenticate return nil only with its nil result, on an element of Handler's authenticator list; credential-holding authenticators return nil only after CredentialStore.Valid was true; Valid returns true only for a present entry whose secret compared equal to the password")
+	r.Rule("C21.R4", "no credential store admits an empty secret: Valid rejects an empty stored secret/password (bcrypt compare, explicit test), or the authenticator rejects an empty password, or every entry inserted into the map that becomes the store is guarded non-empty")
 	r.Rule("C21.R3", "with SOCKS5 auth.enabled assumed true, every list stored into Handler's authenticator field (along every static call chain) is non-empty and holds only credential-checking authenticators")
 	cx := &c21cx{p: p, r: r, socksPkg: kit.PkgPath("internal/socks5"),
 		authFnState: map[*ssa.Function]int{}, authFnWhy: map[*ssa.Function]string{},
@@ -356,6 +402,7 @@ func runC21(p *kit.Program, r *kit.Report) {
 	cx.ruleR2Authenticate()
 	cx.ruleR1()
 	cx.ruleR3()
+	cx.ruleR4()
 }
 
 // ---------------------------------------------------------------------------------------------
@@ -536,6 +583,7 @@ func (cx *c21cx) ruleR2Types() {
 				r.Violation("C21.R2", key, p.Pos(n.Obj().Pos()), "Valid has no analysable body")
 				continue
 			}
+			cx.stores = append(cx.stores, c21Store{named: n, valid: fn})
 			ok, why := cx.validSound(fn)
 			r.Decide(ok, "C21.R2", key, p.Pos(fn.Pos()),
 				"Valid returns true only for a present entry whose stored secret compared equal to the supplied password",
@@ -577,6 +625,10 @@ func (cx *c21cx) authenticateClosed(fn *ssa.Function) (bool, string) {
 			}
 			if g.Polarity && cx.isValidCall(g.Cond) {
 				ok = true
+				// the two credentials handed to Valid must be two different client inputs
+				if c := g.Cond.(*ssa.Call); kit.Arg(c, 0) != nil && kit.Arg(c, 1) != nil && c21StripConv(kit.Arg(c, 0)) == c21StripConv(kit.Arg(c, 1)) {
+					return false, "Valid at " + cx.p.Pos(c.Pos()) + " is given the same value as user name and as password"
+				}
 			}
 		}
 		if !ok {
@@ -1660,4 +1712,458 @@ func (cx *c21cx) solveAt(chain []c21Frame, acc kit.FieldAccess) ([]c21List, bool
 	}
 	rec(map[string]c21List{}, 0)
 	return c21Dedup(shapes), feasible, needCaller
+}
+
+// ---------------------------------------------------------------------------------------------
+// R4: an unusable (empty) secret must never become a usable credential
+
+// c21ExcludesEmpty: "cond == pol" implies that a value accepted by isTarget is a non-empty
+// string / byte slice (x != "", len(x) > 0 and the like).
+func c21ExcludesEmpty(cond ssa.Value, pol bool, isTarget func(ssa.Value) bool) bool {
+	b, ok := cond.(*ssa.BinOp)
+	if !ok {
+		return false
+	}
+	for _, side := range []struct {
+		x, k ssa.Value
+		flip bool
+	}{{b.X, b.Y, false}, {b.Y, b.X, true}} {
+		if s, isStr := kit.ConstString(side.k); isStr && s == "" && isTarget(side.x) {
+			switch b.Op {
+			case token.NEQ:
+				return pol
+			case token.EQL:
+				return !pol
+			}
+		}
+		k, isInt := kit.ConstInt(side.k)
+		if _, isConst := side.k.(*ssa.Const); !isConst || !isInt {
+			continue
+		}
+		arg, isLen := kit.LenOf(side.x)
+		if !isLen || !isTarget(arg) {
+			continue
+		}
+		op := b.Op
+		if side.flip {
+			op = flipCmp(op)
+		}
+		// evaluate "len op k" for len = 0: the empty value must take the other branch
+		ord := 0
+		if 0 < k {
+			ord = -1
+		} else if 0 > k {
+			ord = 1
+		}
+		switch op {
+		case token.LSS, token.LEQ, token.GTR, token.GEQ, token.EQL, token.NEQ:
+			return cmpHolds(op, ord) != pol
+		}
+	}
+	return false
+}
+
+// validRejectsEmpty: every leaf on which Valid can return true is guarded by (or is) a bcrypt
+// comparison (an empty hash never verifies) or a test that the stored secret / the password is
+// non-empty.
+func (cx *c21cx) validRejectsEmpty(fn *ssa.Function) bool {
+	if len(fn.Params) != 3 {
+		return false
+	}
+	pass := fn.Params[2]
+	isTarget := func(v ssa.Value) bool {
+		v = c21StripConv(v)
+		return v == pass || c21StoredOf(v) != nil
+	}
+	safe := func(cond ssa.Value, pol bool) bool {
+		if c21ExcludesEmpty(cond, pol, isTarget) {
+			return true
+		}
+		if b, ok := cond.(*ssa.BinOp); ok && (b.Op == token.EQL || b.Op == token.NEQ) && (b.Op == token.EQL) == pol {
+			for _, side := range [][2]ssa.Value{{b.X, b.Y}, {b.Y, b.X}} {
+				if c, ok := side[0].(*ssa.Call); ok && kit.IsNilConst(side[1]) {
+					if cal := kit.CalleeOf(c); cal.Pkg == "golang.org/x/crypto/bcrypt" && cal.Name == "CompareHashAndPassword" {
+						return true
+					}
+				}
+			}
+		}
+		return false
+	}
+	for _, l := range kit.ResultLeaves(fn, 0) {
+		v, neg := kit.StripNot(l.Val)
+		if c, ok := kit.ConstBool(v); ok && c == neg {
+			continue // returns false
+		}
+		ok := false
+		for _, g := range l.Guards {
+			if safe(g.Cond, g.Polarity) {
+				ok = true
+			}
+		}
+		if _, isConst := kit.ConstBool(v); !isConst && safe(v, !neg) {
+			ok = true
+		}
+		if !ok {
+			return false
+		}
+	}
+	return true
+}
+
+// authenticatorsRejectEmptyPassword: every Valid call made by a credential-checking
+// authenticator is reached only with a non-empty password argument.
+func (cx *c21cx) authenticatorsRejectEmptyPassword() bool {
+	n := 0
+	for _, fn := range cx.p.RepoFuncs() {
+		if fn.Name() != "Authenticate" || fn.Signature.Recv() == nil || !c21Implements(fn.Signature.Recv().Type(), cx.authNamed) {
+			continue
+		}
+		for _, c := range kit.Calls(fn) {
+			call, ok := c.(*ssa.Call)
+			if !ok || !cx.isValidCall(call) {
+				continue
+			}
+			n++
+			pw := kit.Arg(call, 1)
+			if pw == nil {
+				return false
+			}
+			root := c21StripConv(pw)
+			var lenV ssa.Value
+			if ms, ok := root.(*ssa.MakeSlice); ok {
+				lenV = ms.Len
+			}
+			isTarget := func(v ssa.Value) bool { return c21StripConv(v) == root }
+			ok2 := false
+			for _, g := range kit.NormGuards(kit.GuardsOf(call)) {
+				if c21ExcludesEmpty(g.Cond, g.Polarity, isTarget) {
+					ok2 = true
+				}
+				// a test on the announced length the buffer was made with
+				if b, isBin := g.Cond.(*ssa.BinOp); isBin && lenV != nil {
+					for _, side := range []struct {
+						x, k ssa.Value
+						flip bool
+					}{{b.X, b.Y, false}, {b.Y, b.X, true}} {
+						k, isInt := kit.ConstInt(side.k)
+						if _, isConst := side.k.(*ssa.Const); !isConst || !isInt || side.x != lenV {
+							continue
+						}
+						op := b.Op
+						if side.flip {
+							op = flipCmp(op)
+						}
+						ord := 0
+						if 0 < k {
+							ord = -1
+						} else if 0 > k {
+							ord = 1
+						}
+						if cmpHolds(op, ord) != g.Polarity {
+							ok2 = true
+						}
+					}
+				}
+			}
+			if !ok2 {
+				return false
+			}
+		}
+	}
+	return n > 0
+}
+
+type c21MapOrigins struct {
+	makes   map[*ssa.MakeMap]bool
+	unknown string
+}
+
+func (cx *c21cx) mapOrigins(v ssa.Value, depth int, seen map[ssa.Value]bool, o *c21MapOrigins) {
+	if v == nil || seen[v] {
+		return
+	}
+	seen[v] = true
+	unknown := func(what string) {
+		if o.unknown == "" {
+			o.unknown = what
+		}
+	}
+	if depth > 8 {
+		unknown("a chain of calls that is too deep")
+		return
+	}
+	switch x := v.(type) {
+	case *ssa.MakeMap:
+		o.makes[x] = true
+	case *ssa.Const:
+		if !kit.IsNilConst(x) {
+			unknown("a constant")
+		}
+	case *ssa.ChangeType:
+		cx.mapOrigins(x.X, depth, seen, o)
+	case *ssa.Convert:
+		cx.mapOrigins(x.X, depth, seen, o)
+	case *ssa.MakeInterface:
+		cx.mapOrigins(x.X, depth, seen, o)
+	case *ssa.Phi:
+		for _, e := range x.Edges {
+			cx.mapOrigins(e, depth, seen, o)
+		}
+	case *ssa.Parameter:
+		fn := x.Parent()
+		idx := -1
+		for i, q := range fn.Params {
+			if q == x {
+				idx = i
+			}
+		}
+		sites := cx.p.StaticCallers(fn)
+		if idx < 0 || len(sites) == 0 {
+			if fn.Object() != nil && fn.Object().Exported() {
+				return // exported API without a caller in production code: nothing flows in
+			}
+			unknown("parameter " + x.Name() + " of " + kit.FuncName(fn))
+			return
+		}
+		for _, c := range sites {
+			if idx < len(c.Common().Args) {
+				cx.mapOrigins(c.Common().Args[idx], depth+1, seen, o)
+			}
+		}
+	case *ssa.Extract:
+		if c, ok := x.Tuple.(*ssa.Call); ok {
+			cx.mapCall(c, x.Index, depth, seen, o)
+			return
+		}
+		unknown("a multi-value expression")
+	case *ssa.Call:
+		cx.mapCall(x, 0, depth, seen, o)
+	case *ssa.Field:
+		cx.structFieldOrigins(x.X, x.Field, depth, seen, o)
+	case *ssa.UnOp:
+		if x.Op != token.MUL {
+			unknown("an expression")
+			return
+		}
+		switch a := x.X.(type) {
+		case *ssa.Alloc:
+			cx.allocStores(a, -1, depth, seen, o)
+		case *ssa.FieldAddr:
+			if base, ok := a.X.(*ssa.Alloc); ok {
+				cx.allocStores(base, a.Field, depth, seen, o)
+				return
+			}
+			f := kit.FieldOfAddr(a)
+			accs := cx.p.FieldAccessesOfKind(f, kit.FieldStore)
+			if len(accs) == 0 {
+				unknown("field " + f.Name() + ", which no code assigns (filled from configuration data)")
+				return
+			}
+			for _, acc := range accs {
+				cx.mapOrigins(acc.Val, depth+1, seen, o)
+			}
+		default:
+			unknown("a value loaded through a pointer")
+		}
+	default:
+		unknown(fmt.Sprintf("a %T", v))
+	}
+}
+
+func (cx *c21cx) mapCall(c *ssa.Call, idx, depth int, seen map[ssa.Value]bool, o *c21MapOrigins) {
+	cal := kit.CalleeOf(c)
+	if cal.Static == nil || cal.Static.Blocks == nil || !kit.IsRepoPkg(cal.Pkg) {
+		if o.unknown == "" {
+			o.unknown = "the result of " + cal.String()
+		}
+		return
+	}
+	for _, l := range kit.ResultLeaves(cal.Static, idx) {
+		cx.mapOrigins(l.Val, depth+1, seen, o)
+	}
+}
+
+// allocStores: the values stored into a local variable (field < 0) or into one field of a local
+// struct (also through whole-struct stores).
+func (cx *c21cx) allocStores(a *ssa.Alloc, field int, depth int, seen map[ssa.Value]bool, o *c21MapOrigins) {
+	refs := a.Referrers()
+	if refs == nil {
+		return
+	}
+	for _, rr := range *refs {
+		switch x := rr.(type) {
+		case *ssa.Store:
+			if x.Addr != a {
+				continue
+			}
+			if field < 0 {
+				cx.mapOrigins(x.Val, depth, seen, o)
+			} else {
+				cx.structFieldOrigins(x.Val, field, depth, seen, o)
+			}
+		case *ssa.FieldAddr:
+			if x.X != a || field < 0 || x.Field != field || x.Referrers() == nil {
+				continue
+			}
+			for _, r2 := range *x.Referrers() {
+				if st, ok := r2.(*ssa.Store); ok && st.Addr == x {
+					cx.mapOrigins(st.Val, depth, seen, o)
+				}
+			}
+		}
+	}
+}
+
+func (cx *c21cx) structFieldOrigins(sv ssa.Value, field int, depth int, seen map[ssa.Value]bool, o *c21MapOrigins) {
+	if depth > 8 {
+		return
+	}
+	switch x := sv.(type) {
+	case *ssa.Parameter:
+		fn := x.Parent()
+		idx := -1
+		for i, q := range fn.Params {
+			if q == x {
+				idx = i
+			}
+		}
+		for _, c := range cx.p.StaticCallers(fn) {
+			if idx >= 0 && idx < len(c.Common().Args) {
+				cx.structFieldOrigins(c.Common().Args[idx], field, depth+1, seen, o)
+			}
+		}
+	case *ssa.UnOp:
+		if a, ok := x.X.(*ssa.Alloc); ok && x.Op == token.MUL {
+			cx.allocStores(a, field, depth, seen, o)
+			return
+		}
+		if o.unknown == "" {
+			o.unknown = "a struct loaded through a pointer"
+		}
+	case *ssa.Phi:
+		for _, e := range x.Edges {
+			cx.structFieldOrigins(e, field, depth, seen, o)
+		}
+	case *ssa.Call:
+		cal := kit.CalleeOf(x)
+		if cal.Static != nil && cal.Static.Blocks != nil && kit.IsRepoPkg(cal.Pkg) {
+			for _, l := range kit.ResultLeaves(cal.Static, 0) {
+				cx.structFieldOrigins(l.Val, field, depth+1, seen, o)
+			}
+			return
+		}
+		if o.unknown == "" {
+			o.unknown = "the result of " + cal.String()
+		}
+	default:
+		if o.unknown == "" {
+			o.unknown = fmt.Sprintf("a struct value %T", sv)
+		}
+	}
+}
+
+func (cx *c21cx) ruleR4() {
+	p, r := cx.p, cx.r
+	authRejects := cx.authenticatorsRejectEmptyPassword()
+	// all map insertions of the loaded program, by the map they go into
+	type update struct {
+		mu *ssa.MapUpdate
+		fn *ssa.Function
+	}
+	var updates []update
+	for _, fn := range p.RepoFuncs() {
+		kit.Instrs(fn, func(in ssa.Instruction) {
+			if mu, ok := in.(*ssa.MapUpdate); ok {
+				if m, ok := mu.Map.Type().Underlying().(*types.Map); ok {
+					if b, ok := m.Elem().Underlying().(*types.Basic); ok && b.Info()&types.IsString != 0 {
+						updates = append(updates, update{mu, fn})
+					}
+				}
+			}
+		})
+	}
+	for _, sto := range cx.stores {
+		name := sto.named.Obj().Name()
+		key := "credential store " + strings.TrimPrefix(sto.named.Obj().Pkg().Path(), kit.Module+"/") + "." + name + " empty secret"
+		pos := p.Pos(sto.valid.Pos())
+		if cx.validRejectsEmpty(sto.valid) {
+			r.OK("C21.R4", key, pos, "Valid cannot succeed on an empty stored secret (bcrypt comparison or explicit non-empty test)")
+			continue
+		}
+		if authRejects {
+			r.OK("C21.R4", key, pos, "every authenticator rejects an empty password before consulting the store")
+			continue
+		}
+		if _, isMap := sto.named.Underlying().(*types.Map); !isMap {
+			r.Violation("C21.R4", key, pos, "Valid of this store accepts an empty stored secret with an empty password and the store is not a map whose construction can be examined")
+			continue
+		}
+		// construction sites of the store type
+		org := &c21MapOrigins{makes: map[*ssa.MakeMap]bool{}}
+		nSites := 0
+		for _, fn := range p.RepoFuncs() {
+			kit.Instrs(fn, func(in ssa.Instruction) {
+				switch x := in.(type) {
+				case *ssa.ChangeType:
+					if x.Type() == types.Type(sto.named) {
+						nSites++
+						cx.mapOrigins(x.X, 0, map[ssa.Value]bool{}, org)
+					}
+				case *ssa.MakeMap:
+					if x.Type() == types.Type(sto.named) {
+						nSites++
+						org.makes[x] = true
+					}
+				}
+			})
+		}
+		r.Count("credential_store_construction_sites", nSites)
+		bad, badPos := "", pos
+		if org.unknown != "" {
+			bad = "the map that becomes the store comes from " + org.unknown + ", whose entries cannot be shown to be non-empty"
+		}
+		nIns := 0
+		for _, u := range updates {
+			uo := &c21MapOrigins{makes: map[*ssa.MakeMap]bool{}}
+			cx.mapOrigins(u.mu.Map, 0, map[ssa.Value]bool{}, uo)
+			hit := false
+			for m := range uo.makes {
+				if org.makes[m] {
+					hit = true
+				}
+			}
+			if !hit {
+				continue
+			}
+			nIns++
+			if s, isConst := kit.ConstString(u.mu.Value); isConst && s != "" {
+				continue
+			}
+			val := c21StripConv(u.mu.Value)
+			same := func(v ssa.Value) bool {
+				v = c21StripConv(v)
+				if v == val {
+					return true
+				}
+				f1, b1 := kit.LoadedField(v)
+				f2, b2 := kit.LoadedField(val)
+				return f1 != nil && f1 == f2 && b1 == b2
+			}
+			guarded := false
+			for _, g := range kit.NormGuards(kit.GuardsOf(u.mu)) {
+				if c21ExcludesEmpty(g.Cond, g.Polarity, same) {
+					guarded = true
+				}
+			}
+			if !guarded && bad == "" {
+				bad = kit.FuncName(u.fn) + " inserts a secret into the map that becomes a " + name + " without testing that it is non-empty"
+				badPos = p.Pos(u.mu.Pos())
+			}
+		}
+		r.Count("credential_map_insertions", nIns)
+		r.Decide(bad == "", "C21.R4", key, badPos,
+			fmt.Sprintf("all %d insertion(s) into the map(s) that become the store are guarded non-empty", nIns),
+			bad+": a configured user without a usable password is stored with the secret \"\", and "+name+".Valid accepts the empty password for it (neither Valid nor the authenticator rejects empty secrets)")
+	}
 }
